@@ -47,13 +47,16 @@ def main():
         open(f, "w").write(src.replace(mu["old"], mu["new"]))
         rc, out = build(prop, wd, wd + "/_out")
         changed = set()
+        types_changed = False
         for g in glob.glob(wd + "/_out/build/*/units.rs"):
             b = base[prop].get(os.path.basename(os.path.dirname(g)), {})
             for k, v in units_of(g).items():
                 if b.get(k) != v:
                     changed.add(k)
+                    if not re.search(r"\bfn\s+\w+", v):
+                        types_changed = True   # a constant / type unit changed: every user of it legitimately depends on it
         failing = set(re.findall(r"failed obligation: \w+\.(\w+)\.", out))
-        coll = sorted(failing - changed)
+        coll = [] if types_changed else sorted(failing - changed)
         n += 1
         if coll:
             bad += 1
